@@ -199,3 +199,23 @@ Definition allowed (n : nat) : res (list (list nat)) :=
 
 (* what the theorems say [allowed] computes *)
 Definition allowed_spec (n : nat) : list (list nat) := filter lukb (product n).
+
+(* ---------- flat encodings used by the generated correspondence files ---------- *)
+Definition o2n (o : option nat) : nat := match o with None => 0 | Some k => S k end.
+Definition enc_check (r : res (bool * option (list nat) * list node)) : list nat :=
+  match r with
+  | Crash => [1]
+  | Fuel => [2]
+  | Ok (b, p, t) =>
+    0 :: (if b then 1 else 0)
+      :: (match p with None => [0] | Some p => S (length p) :: p end)
+      ++ flat_map (fun nd => [ty nd; o2n (par nd); o2n (lft nd); o2n (rgt nd)]) t
+  end.
+Fixpoint llnat_eqb (a b : list (list nat)) : bool :=
+  match a, b with
+  | [], [] => true
+  | x :: r, y :: s => list_nat_eqb x y && llnat_eqb r s
+  | _, _ => false
+  end.
+Definition enc_allowed (r : res (list (list nat))) : option (list (list nat)) :=
+  match r with Ok l => Some l | _ => None end.
